@@ -15,6 +15,26 @@ SLOTS = ["labile", "static", "isotope", "unknown", "nterm", "cterm", "adducts"]
 
 RULE_EXTRA = ('add_mods on the same modified text before the dictionary round trip; equality after an in-place edit of a modification that already took part in a comparison; peptides decorated only by a charge / bare intervals; [x,x,y] versus [x,y,y].')
 
+
+def touch_mods(x, depth=0):
+    """Edit every modification object reachable from x in place (value and multiplier): x is an annotation, a dictionary
+    or a list that the caller owns."""
+    from peptacular.proforma.proforma_dataclasses import Mod, Interval
+    if depth > 6 or x is None:
+        return
+    if isinstance(x, Mod):
+        x.val, x.mult = "TOUCHED", x.mult + 5
+    elif isinstance(x, Interval):
+        touch_mods(x.mods, depth + 1)
+    elif isinstance(x, dict):
+        for v in x.values():
+            touch_mods(v, depth + 1)
+    elif isinstance(x, (list, tuple)):
+        for v in x:
+            touch_mods(v, depth + 1)
+    elif hasattr(x, "__dict__") and type(x).__name__ == "ProFormaAnnotation":
+        touch_mods(vars(x), depth + 1)
+
 def _all_modlists(A):
     out = [(s, A[s]) for s in SLOTS if A[s]]
     out += [("internal", e["mods"]) for e in A["internal"]]
@@ -131,6 +151,17 @@ def events_for(pp, rnd, A, tag):
                 x.intervals[0].mods.append(Mod("EDIT", 1))
         if x.labile_mods:
             x.labile_mods.append(Mod("EDIT", 1))
+        # ... and the modification objects the annotation already holds, field by field (a copy owns its own)
+        touch_mods(x)
+    a = anngen.build(pp, A)
+
+    def h():
+        d, md = a.dict(), a.mod_dict()
+        touch_mods(d)
+        touch_mods(md)
+        return project.ann(a)
+    o, r = call(h)
+    add("dictedit", out=o, origAfter=r if o == "ret" else blank)
     a = anngen.build(pp, A)
 
     def f():
